@@ -1,3 +1,4 @@
 import NasdaqModel.Driver.Loop
 import NasdaqModel.Driver.BinCodec
-def main : IO Unit := NasdaqModel.Driver.mainLoop [NasdaqModel.Driver.BinCodecD.handle]
+import NasdaqModel.Driver.BinObj
+def main : IO Unit := NasdaqModel.Driver.mainLoop [NasdaqModel.Driver.BinCodecD.handle, NasdaqModel.Driver.BinObjD.handle]
